@@ -174,6 +174,7 @@ func NewSalsa20BlockCrypt(key []byte) (BlockCrypt, error) {
 //go:nosplit
 func (c *salsa20BlockCrypt) Encrypt(dst, src []byte) {
 	if len(src) < 8 {
+		copy(dst, src) // too short to carry the nonce: left in clear, but dst must still be written
 		return
 	}
 	salsa20.XORKeyStream(dst[8:], src[8:], src[:8], &c.key)
@@ -185,6 +186,7 @@ func (c *salsa20BlockCrypt) Encrypt(dst, src []byte) {
 //go:nosplit
 func (c *salsa20BlockCrypt) Decrypt(dst, src []byte) {
 	if len(src) < 8 {
+		copy(dst, src)
 		return
 	}
 	salsa20.XORKeyStream(dst[8:], src[8:], src[:8], &c.key)
